@@ -12,10 +12,11 @@
  *   Inv_cnt  : count == n0 - sets ;  COMPLETED => sets >= n0
  *   Rely     : other setters perform fetch-dec steps; the one whose step is number n0
  *              sets COMPLETED and runs the callback once.
- * The environment acts before the function starts and before each wrapped atomic
- * operation / barrier of the function (verif_rg.h).
+ * The environment acts before the function starts and before AND after each wrapped atomic
+ * operation / barrier of the function (verif_rg.h with VERIF_RG_POST_STEP).
  */
 #include "verif.h"
+#define VERIF_RG_POST_STEP      /* the environment also acts right AFTER each of my atomic operations */
 #include "verif_rg.h"
 #include "parsec/class/parsec_future.c"
 
@@ -29,12 +30,12 @@ struct vin {
     uint8_t  has_cb;          /* future initialised with a completion callback?      */
     uint8_t  my_val;          /* index of the value I set                            */
     uint8_t  env_val;         /* index of the value another setter uses              */
-    uint8_t  env[4];          /* environment actions at each step (bit set)          */
+    uint8_t  env[6];          /* environment actions at each step (bit set)          */
     uint8_t  status;          /* is_ready: any status byte                           */
     int32_t  n0;              /* countable: count given to init                      */
     int32_t  r0;              /* countable: sets linearised before my call           */
     uint8_t  r0_completed;    /* countable: did the n0-th setter already publish?    */
-    int32_t  envk[2];         /* countable: further sets by others at each env step  */
+    int32_t  envk[3];         /* countable: further sets by others at each env step  */
 } vin;
 #include "verif_vin.h"
 
@@ -46,6 +47,7 @@ enum { M_NONE = 0, M_BASE, M_COUNT };
 enum { W_NONE = 0, W_ME, W_ENV };
 static int g_mode;
 static int g_env_k;
+static int g_post;                      /* the env step now running is the one right after my own step */
 /* base */
 static int   g_winner;                  /* who moved tracked_data away from NULL            */
 static void *g_winner_val;
@@ -104,18 +106,22 @@ static void env_count(int32_t k, int publish)
         if (cf.super.cb_fulfill != NULL) { int s = g_in_call; g_in_call = 0; cf.super.cb_fulfill(&cf.super); g_in_call = s; }
     }
 }
+#define NENV_BASE 6
+#define NENV_COUNT 3
 void verif_env_step(int op, volatile void *loc)
 {
-    (void)loc;
+    int post = g_post; g_post = 0;
     if (g_mode == M_BASE) {
-        if (g_env_k < 4) env_base(vin.env[g_env_k++]);
-        if (op == V_OP_CAS && loc == (volatile void *)&bf.tracked_data) g_slot_empty_at_my_cas = (bf.tracked_data == NULL);
+        if (g_env_k < NENV_BASE) env_base(vin.env[g_env_k++]);
+        /* the slot as my CAS finds it: sampled at the step BEFORE the operation only */
+        if (!post && op == V_OP_CAS && loc == (volatile void *)&bf.tracked_data) g_slot_empty_at_my_cas = (bf.tracked_data == NULL);
     } else if (g_mode == M_COUNT) {
-        if (g_env_k < 2) { env_count(vin.envk[g_env_k], vin.env[g_env_k] & 1); g_env_k++; }
+        if (g_env_k < NENV_COUNT) { env_count(vin.envk[g_env_k], vin.env[g_env_k] & 1); g_env_k++; }
     }
 }
 void verif_own_step(int op, volatile void *loc, int success)
 {
+    g_post = 1;                           /* with VERIF_RG_POST_STEP the next env step is the post step of this operation */
     if (g_mode == M_BASE) {
         if (op == V_OP_CAS && loc == (volatile void *)&bf.tracked_data) {
             g_lin++; g_my_cas_ok = success;
@@ -136,7 +142,7 @@ static void base_prestate(void)
     parsec_base_future_construct(&bf);
     parsec_base_future_init(&bf, vin.has_cb ? stub_cb : NULL);
     g_mode = M_BASE; g_env_k = 0; g_winner = W_NONE; g_winner_val = NULL; g_lin = 0; g_env_completed = 0;
-    g_cb_me = g_cb_env = 0; g_cb_arg_bad = g_cb_state_bad = 0; g_get_fence_bad = 0; g_in_call = 0;
+    g_cb_me = g_cb_env = 0; g_cb_arg_bad = g_cb_state_bad = 0; g_get_fence_bad = 0; g_in_call = 0; g_post = 0;
 }
 
 /* ------------------------------------------------------------------ */
@@ -240,7 +246,7 @@ void h_count_set(void)
     V_ASSERT(!parsec_base_future_is_ready(&cf.super), "C29.countable_future_init.post.not_ready");
 
     /* symbolic history: r0 sets already linearised (Inv_cnt), the n0-th of them has (or has not yet) published */
-    g_n0 = vin.n0; g_sets = 0; g_lin = 0; g_my_no = 0; g_cb_me = g_cb_env = 0; g_cb_arg_bad = g_cb_state_bad = 0; g_env_k = 2;
+    g_n0 = vin.n0; g_sets = 0; g_lin = 0; g_my_no = 0; g_cb_me = g_cb_env = 0; g_cb_arg_bad = g_cb_state_bad = 0; g_env_k = NENV_COUNT; g_post = 0;
     g_mode = M_COUNT; g_in_call = 0;
     g_env_last = g_env_published = 0;
     env_count(vin.r0, vin.r0_completed);
@@ -283,7 +289,7 @@ void h_count_set(void)
 static void two_sets(void *first)
 {
     base_prestate();
-    g_env_k = 4;                                  /* no interference: a sequential history */
+    g_env_k = NENV_BASE;                          /* no interference: a sequential history */
     g_in_call = 1;
     parsec_base_future_set(&bf, first);
     V_ASSERT(parsec_base_future_is_ready(&bf), "C29.base_future_set.post.first_set_makes_it_ready");
